@@ -110,18 +110,26 @@ def r3(fx):
                             def lvl_of(v):
                                 return None if v == -3 else (error or 'L')
 
-                            def needf(v, tgt=tgt, kind=kind):
-                                if v < tgt:
-                                    return BIG
-                                if kind == 'from':
+                            # a content whose bit count is what a real one's is: payload + the headers of its segments in the
+                            # version asked about (the same within a character-count class, growing from class to class)
+                            def header(v, mset=mset):
+                                if v >= 1:
+                                    return sum(4 + iso.CCI[m][iso.version_range(v)] + (4 if m == 'hanzi' else 0) for m in mset)
+                                if any(v not in iso.SUPPORTED[m] for m in mset):
                                     return 0
-                                if v == tgt:
-                                    l = lvl_of(v)
-                                    if l not in iso.levels_of(v):
-                                        return BIG
-                                    c = iso.capacity_bits(v, l)
-                                    return c if kind == 'exact' else c + 1
-                                return 0
+                                return sum({-3: 0, -2: 1, -1: 2, 0: 3}[v] + iso.CCI[m][v] for m in mset)
+                            l_t = lvl_of(tgt)
+                            if kind == 'from':
+                                payload = 1
+                            else:
+                                if l_t not in iso.levels_of(tgt) or (tgt < 1 and any(tgt not in iso.SUPPORTED[m] for m in mset)):
+                                    continue
+                                payload = iso.capacity_bits(tgt, l_t) - header(tgt) + (1 if kind == 'over' else 0)
+                                if payload < 1:
+                                    continue
+
+                            def needf(v, payload=payload):
+                                return payload + header(v)
                             segs = SegmentsModel([SegModel(md[m], None) for m in mset])
 
                             def blwo(version, e, sa=False, nf_=needf, segs=segs, mset=mset):
@@ -197,10 +205,18 @@ def _encode_stub_env(fx, it, guessed, seg=None, level=None):
             raise Raised(None, it.exc_class(ast.parse('DataOverflowError', mode='eval').body, genv), 'overflow')
         return guessed
 
-    def _encode(segments, error, version, mask, eci, boost_error, sa_info=None):
-        rec['_encode'] = dict(error=error, version=version, mask=mask, eci=eci, boost_error=boost_error)
-        rec['_encode_segments'] = segments
-        return ('CODE', version, error, mask)
+    ref = ['segments', 'error', 'version', 'mask', 'eci', 'boost_error', 'sa_info']
+
+    def _encode(*a, **k):
+        vals = dict(zip(ref, a))
+        vals.update(k)
+        missing = [n_ for n_ in ref[:6] if n_ not in vals]
+        if missing or set(vals) - set(ref):
+            # encode talks to _encode through another interface than the reference one: these rules cannot read the call
+            raise Unknown(f'encode calls _encode without {missing or sorted(set(vals) - set(ref))}: the internal interface changed, the decision table cannot be read off the call')
+        rec['_encode'] = {n_: vals[n_] for n_ in ref[1:6]}
+        rec['_encode_segments'] = vals['segments']
+        return ('CODE', vals['version'], vals['error'], vals['mask'])
     genv = encoder_env(fx.forest, it, prepare_data=prepare_data, find_version=find_version, _encode=_encode)
     return genv, rec
 
@@ -343,7 +359,7 @@ def _caller_convention(fx, enc):
     mv = micro_versions(fx)
     inv = {rv: v for v, rv in mv.items()}
     wsf = fx.fn('encoder', 'write_segment')
-    pnames = src.params(wsf)
+    pnames = src.all_params(wsf)
     need(len(pnames) >= 4, 'write_segment(buff, segment, ver, ver_range, ...)')
     cache = {}
 
